@@ -101,7 +101,7 @@ def cases(tier, seed):
             out.append({"kind": "cell", "ff": "PARSE", "resn": resn, "pos": "C", "seed": seed + rep, "opts": ["--neutralc"]})
     nmix = 40 if tier == "quick" else 8000
     for spec in workload.standard_cases(tier, seed, nmix, nmix, frag_share=0.0,
-                                        p={"variant_prob": 0.0, "na_prob": 0.15, "waters": [0, 3], "no_variants": [],
+                                        p={"variant_prob": 0.0, "na_prob": 0.15, "waters": [0, 3], "no_variants": [], "oxt_prob": 1.0,
                                            "alias_prob": 0.15, "icode_prob": 0.15, "gap_prob": 0.1}):
         spec["kind"] = "mixed"
         spec["opts"] = [f"--ff={spec['ff']}"]
@@ -134,7 +134,7 @@ def cases(tier, seed):
                 if ff == "PARSE" and rng.random() < 0.25:
                     o.append(rng.choice(["--neutraln", "--neutralc"]))
                 out.append({"kind": "mixedopts", "w": "synth", "seed": seed * 6007 + len(out), "ff": ff, "opts": o,
-                            "p": {"variant_prob": 0.0, "na": False, "waters": [0, 3], "no_variants": [], "minlen": 4,
+                            "p": {"variant_prob": 0.0, "na": False, "waters": [0, 3], "no_variants": [], "oxt_prob": 1.0, "minlen": 4,
                                   "carboxyl_asym_prob": 0.5, "maxlen": 7, "pool": ["ASP", "GLU", "HIS", "CYS", "TYR", "LYS", "ARG", "ASP", "GLU",
                                                         "ALA", "SER", "ASN", "GLN", "THR"]}})
     # --assign-only on complete, fully protonated structures (pdb2pqr's own --pdb-output of a full run): every
@@ -143,7 +143,7 @@ def cases(tier, seed):
     for i in range(na_):
         ff = common.FFS[i % 6]
         out.append({"kind": "assignonly", "w": "synth", "seed": seed * 7019 + i, "ff": ff, "opts": [f"--ff={ff}"],
-                    "p": {"variant_prob": 0.3, "na": False, "waters": [0, 2], "minlen": 4, "maxlen": 7,
+                    "p": {"variant_prob": 0.3, "na": False, "waters": [0, 2], "minlen": 4, "maxlen": 7, "oxt_prob": 1.0,
                           "pool": ["HIS", "HIS", "ASP", "GLU", "CYS", "TYR", "LYS", "ARG", "SER", "THR", "ASN", "GLN",
                                    "ALA", "GLY", "PRO", "TRP"]}})
     rng = random.Random(seed * 3 + 1)
